@@ -267,7 +267,7 @@ fn cmd_replay(a: &[String]) -> i32 {
             let same = r.violations.iter().find(|v| v.signature == rf.verdict.signature);
             if check {
                 match same {
-                    Some(v) => println!("REPRODUCED signature={} digest={:#x} recorded_digest={}", v.signature, r.digest, rf.digest),
+                    Some(v) => println!("REPRODUCED signature={} digest={:#x} recorded_digest={} exact={}", v.signature, r.digest, rf.digest, format!("{:#x}", r.digest) == rf.digest),
                     None => println!("NOT-REPRODUCED signatures_now={:?}", r.violations.iter().map(|v| &v.signature).collect::<Vec<_>>()),
                 }
                 return if same.is_some() { 1 } else { 0 };
@@ -521,6 +521,9 @@ fn cmd_check(a: &[String]) -> i32 {
                 let ok = match &out {
                     Ok(o) => {
                         let so = String::from_utf8_lossy(&o.stdout);
+                        if so.contains("exact=false") {
+                            println!("note: {sig} (run {}) reproduces with the same verdict but another event digest than recorded", v.run);
+                        }
                         so.contains("REPRODUCED signature=") && !so.contains("NOT-REPRODUCED")
                     }
                     Err(_) => false,
